@@ -213,7 +213,14 @@ def replay(ctx, res, failure):
     """Verus gives no counterexample: compile the ORIGINAL item texts natively and enumerate all 65536 tables (x 768 transforms),
     the whole lookup table and the whole pattern library; prints FOUND {json} for the first concrete failing input."""
     from vp.core import native_search
+    if ctx.repo in _REPLAY_CACHE:          # one exhaustive run serves every failed obligation of this tree
+        return dict(_REPLAY_CACHE[ctx.repo])
     text, _ = cut(ctx, REPLAY_ITEMS, orig=True)
     body = ("#![allow(dead_code, unused_imports, unused_variables, unused_mut)]\nuse std::collections::HashMap;\nuse std::sync::OnceLock;\n"
             + text + ctx.unit_file("npn", "spec.rs") + ctx.unit_file("npn", "replay.rs"))
-    return native_search(ctx, "npn", "npn", body, timeout=900)
+    r = native_search(ctx, "npn", "npn", body, timeout=900)
+    _REPLAY_CACHE[ctx.repo] = r
+    return dict(r)
+
+
+_REPLAY_CACHE = {}
